@@ -267,7 +267,7 @@ func Run(sc Scenario, prefix []int) (lines []any, taken []int, enabled [][]int) 
 		if p == "stuck" {
 			stuck = true
 			alive[choice] = false
-			add(GateEv{Ev: "gate", Role: choice, Point: "stuck"})
+			add(GateEv{Ev: "gate", Role: choice, Point: "stuck", WqOpen: []uint64{}})
 			continue
 		}
 		if p == "end" {
